@@ -14,13 +14,26 @@ import re
 
 from .. import core, takio
 from ..core import clist, copt, cz, czlist
-from . import _wpa, c01, c01gen
+from . import _wpa, c01gen
+
+
+
+class _Lazy:
+    """c01.py imports this module at its end (its correspondence runs this one too): import it on first use"""
+
+    def __getattr__(self, name):
+        import importlib
+        return getattr(importlib.import_module("harness.props.c01"), name)
+
+
+c01 = _Lazy()
 
 ID = "T01"
 THEOREMS = [
     "T01_gen_move_eq", "T01_gen_move_never_crashes", "T01_gen_move_slide_none", "T01_gen_move_ok_iff",
     "T01_gen_slide_loop_eq", "T01_gen_all_moves_eq", "T01_gen_table_eq", "T01_gen_all_slides_eq",
     "T01_gen_winner_eq", "T01_gen_flat_counts_eq", "T01_gen_flats_winner_eq", "T01_gen_small_functions",
+    "T01_gen_from_squares_eq",
     "T01_gen_move_iff", "T01_gen_move_total", "T01_gen_generator_complete", "T01_gen_generator_complete_rulebook",
     "T01_gen_inv_step", "T01_gen_wf_step", "T01_gen_winner_outcome",
 ]
